@@ -7,7 +7,8 @@ PROPERTY = "C14"
 LEVEL = "model_checking"
 BUDGET = {"quick": 240, "thorough": 2400}
 BOUNDS = {"quick": "bases from a list of 14 shapes (with/without authority, empty path, trailing slash, escapes incl. %2F/%3F/%23 with symbolic hex "
-                   "digits, query, fragment) x references of <= 3 free code points and reference skeletons with <= 3 holes",
+                   "digits, query, fragment) x references of <= 3 free code points and reference skeletons with <= 3 holes; "
+                   "three bases taken verbatim (encoded=True) whose paths still carry dot segments (one with 2 holes over './b'; 4 in the thorough tier) x 9 reference families",
           "thorough": "references of <= 3 free code points on every base, <= 4 on three bases"}
 ASSUMPTIONS = ["an empty query/fragment is treated as absent (yarl cannot represent 'defined but empty')",
                "bases without an authority whose path is empty or rootless are excluded: RFC 3986's merge is ill-defined for them and yarl "
@@ -34,11 +35,12 @@ def norm(c):
     return (s, a, "/" if (a is not None and not p) else p, q, f)
 
 
-def h_join(ctx, base_sk, ref_sk):
+def h_join(ctx, base_sk, ref_sk, base_encoded=False):
     P = ctx.P
     bt = U.text(ctx, base_sk, prefix="b")
     rt = U.text(ctx, ref_sk, prefix="r")
-    b = call(P.URL, bt)
+    # base_encoded: the base is taken verbatim (encoded=True), so its path may still carry dot segments when join() merges it
+    b = call(P.URL, bt, encoded=True) if base_encoded else call(P.URL, bt)
     r = call(P.URL, rt)
     ctx.observe("parse", (outcome(b), outcome(r)))
     if b[0] != "ok" or r[0] != "ok":
@@ -136,6 +138,13 @@ def families(tier):
             if not q and bn in ("escaped-any", "hole") and rn in ("free3",):
                 continue
             fams.append(Family("join/%s/%s" % (bn, rn), h_join, dict(base_sk=bsk, ref_sk=rsk)))
+    DS = ("in", "./b")
+    enc_bases = [("enc-dots", ["http://a/b/../c/./d"]), ("enc-dots-dir", ["http://a/x/./y/../"]),
+                 ("enc-dots-hole", ["http://a/", DS, DS, "/c/./d?q#f"] if q else ["http://a/", DS, DS, "/", DS, DS, "/d?q#f"])]
+    for bn, bsk in enc_bases:
+        for rn, rsk in refs:
+            if rn in ("free1", "path3", "empty", "query", "fragment", "rooted", "same-scheme", "qonly", "pq") or (not q and rn in ("free2", "dots")):
+                fams.append(Family("join-encoded-base/%s/%s" % (bn, rn), h_join, dict(base_sk=bsk, ref_sk=rsk, base_encoded=True)))
     for rn, rsk in refs[:6]:
         fams.append(Family("nonrelative-base/%s" % rn, h_nonrelative, dict(ref_sk=rsk)))
     fams.append(Family("schemes", h_schemes, {}))
